@@ -78,9 +78,11 @@ namespace sw { namespace universal {
 		bool isZero = w == 0;
 		bool isInf = false;
 		bool isNan = false;
-		long _scale = scale(w);
 		Integer w2 = sign ? twosComplement(w) : w;
 		int msb = findMsb(w2);
+		// the scale is the position of the most significant bit of the magnitude:
+		// scale(w) would read the top bit of the unsigned number types as a sign
+		long _scale = msb;
 		internal::bitblock<nbits> fraction_without_hidden_bit;
 		int fbit = nbits - 1;
 		for (int i = msb - 1; i >= 0; --i) {
